@@ -105,6 +105,7 @@ class Stack:
         # True: send calls made in the receive context (from callbacks) and by the application take that time as well - the
         # receive context of this stack is then blocked meanwhile (further frames for it queue up), everything else goes on
         self.tx_all_contexts = tx_all_contexts
+        self._prequeue = []           # (time at which it reaches the bus, identifier) of frames waiting in tx_pre
         self.rx_hooks = []            # callables(listener name) run inside subscriber callbacks (application reacting to a message)
         self.deliveries = []      # (t, listener, prio, pgn, sa, bytes)
         self.requests = []        # (t, ca_name, src, dest, pgn)
@@ -128,8 +129,20 @@ class Stack:
     # bus side ------------------------------------------------------------------
     def _send(self, can_id, extended_id, data, fd_format=False):
         f = simbus.mkframe(can_id, list(data), ext=extended_id, fd=fd_format)
-        if self.tx_pre and (self.world.sim.current is not None or self.tx_all_contexts):
-            sk.FAKE_TIME.sleep(self.tx_pre)
+        sim = self.world.sim
+        if self.tx_pre and (sim.current is not None or self.tx_all_contexts):
+            # the frame waits in the node's transmit path; a frame written meanwhile by another context of the same node may
+            # overtake it only if it wins arbitration (lower identifier) - otherwise it queues behind it
+            item = (sim.now + self.tx_pre, can_id)
+            self._prequeue.append(item)
+            try:
+                sk.FAKE_TIME.sleep(self.tx_pre)
+            finally:
+                self._prequeue.remove(item)
+        elif self._prequeue:
+            ahead = [t for (t, cid) in self._prequeue if cid <= can_id]
+            if ahead and max(ahead) > sim.now:
+                sk.FAKE_TIME.sleep(max(ahead) - sim.now + 1e-6)     # strictly behind it
         self.sent.append((self.world.sim.now, f))
         self.world.bus.transmit(self, f)
         if self.tx_time and (self.world.sim.current is not None or self.tx_all_contexts):
